@@ -144,6 +144,25 @@ Proof.
   reflexivity.
 Qed.
 
+(* `_conform=False` on ANY closed set of known names builds the group of that set (so a constructor call that skips the
+   expansion where its argument is already closed -- e.g. in union / intersection -- changes nothing) *)
+Theorem gen_group_noconform_closed u T : wf_universe u = true -> closed u T -> incl T (names_of u) ->
+  gen_group u T false = mkgroup u T.
+Proof.
+  intros Hwf Hc HK. destruct (mkgroup_total u T Hwf HK) as [G HG]. rewrite HG.
+  pose proof HG as HG'. apply mkgroup_inv in HG' as [C [HC E]]. subst G.
+  pose proof (closure_of_closed u T C Hc HC) as Hsame.
+  pose proof (closure_inv _ _ _ HC) as (_ & _ & _ & HKC & Hs).
+  unfold gen_group, gen_new. mstep.
+  rewrite gen_names_eq.
+  assert (Hd : sort_names u (set_of T) = C).
+  { rewrite <- Hs. apply sort_names_ext. intro x. rewrite In_set_of. apply Hsame. }
+  rewrite Hd. rewrite (gen_for1_eq u C HKC). mstep.
+  rewrite (gen_governors_eq u C (wf_nodup u Hwf)), (gen_skypix_eq u C (wf_nodup u Hwf)).
+  rewrite (gen_lookup_agrees u (required_of u C) _ Hwf (required_known u C HKC)).
+  reflexivity.
+Qed.
+
 (* data_coordinate_keys: the keys of the generated dict are required ++ implied (no key is lost to a duplicate) *)
 Lemma dedup_nodup l : NoDup l -> dedup l = l.
 Proof.
@@ -212,7 +231,7 @@ Theorem gen_union_lub u a others : wf_universe u = true -> is_group u a -> Foral
         incl (gnames c) (gnames h)).
 Proof.
   intros Hwf [la Ha] Hothers. rewrite Forall_forall in Hothers.
-  unfold gen_union. rewrite (gen_group_agrees u _ Hwf).
+  unfold gen_union. cbv zeta.
   set (names := set_union_all (set_of (gnames a)) (map (fun v_other => gnames v_other) others)).
   assert (Hmem : forall x, In x names <-> In x (gnames a) \/ exists b, In b others /\ In x (gnames b)).
   { intro x. unfold names. rewrite In_set_union_all, In_set_of. split.
@@ -227,6 +246,7 @@ Proof.
   assert (Hknown : incl names (names_of u)).
   { intros x Hx. apply Hmem in Hx as [Hx|[b [Hb Hx]]]; [apply HKa; exact Hx|].
     destruct (Hothers b Hb) as [lb Hlb]. pose proof (group_facts u lb b Hlb) as (_ & HKb & _). apply HKb. exact Hx. }
+  first [rewrite (gen_group_agrees u names Hwf) | rewrite (gen_group_noconform_closed u names Hwf Hclosed Hknown)].
   destruct (mkgroup_total u names Hwf Hknown) as [c Hc]. exists c. split; [exact Hc|].
   split; [exists names; exact Hc|].
   pose proof Hc as Hc'. apply mkgroup_inv in Hc' as [C [HC HG]]. subst c. simpl.
@@ -246,7 +266,7 @@ Theorem gen_intersection_glb u a others : wf_universe u = true -> is_group u a -
         incl (gnames h) (gnames c)).
 Proof.
   intros Hwf [la Ha] Hothers. rewrite Forall_forall in Hothers.
-  unfold gen_intersection. rewrite (gen_group_agrees u _ Hwf).
+  unfold gen_intersection. cbv zeta.
   set (names := set_intersection_all (set_of (gnames a)) (map (fun v_other => gnames v_other) others)).
   assert (Hmem : forall x, In x names <-> In x (gnames a) /\ forall b, In b others -> In x (gnames b)).
   { intro x. unfold names. rewrite In_set_intersection_all, In_set_of. split.
@@ -260,6 +280,7 @@ Proof.
       eapply Hcb; eauto. }
   assert (Hknown : incl names (names_of u)).
   { intros x Hx. apply Hmem in Hx as [Hx _]. apply HKa. exact Hx. }
+  first [rewrite (gen_group_agrees u names Hwf) | rewrite (gen_group_noconform_closed u names Hwf Hclosed Hknown)].
   destruct (mkgroup_total u names Hwf Hknown) as [c Hc]. exists c. split; [exact Hc|].
   split; [exists names; exact Hc|].
   pose proof Hc as Hc'. apply mkgroup_inv in Hc' as [C [HC HG]]. subst c. simpl.
